@@ -39,6 +39,7 @@ import (
 	"github.com/lestrrat-go/jwx/v2/jwk"
 	"github.com/nuts-foundation/go-stoabs"
 	"github.com/nuts-foundation/nuts-node/audit"
+	"github.com/nuts-foundation/nuts-node/core"
 	nutsCrypto "github.com/nuts-foundation/nuts-node/crypto"
 	"github.com/nuts-foundation/nuts-node/crypto/hash"
 	"github.com/sirupsen/logrus"
@@ -282,6 +283,105 @@ func c14Build(s dagshape.Shape, share []int, res *vdKeyResolver) []vdTx {
 }
 
 // ---------------------------------------------------------------------------------------------------------------------
+// FAULT-KV extension: transient failures of the notifier's own storage calls
+
+// c14KV wraps the shared fault-injecting store. The notifier reaches its job shelf through ReadShelf (job read before a
+// delivery) and WriteShelf (retry count / completion after a delivery); the next n such calls on one shelf can be made to
+// fail before they touch the database, the way a lock-acquire time-out does while another writer holds the bbolt lock.
+// Transactions handed out report this wrapper as their store, so the notifier's "same DB" check on Save still passes.
+type c14KV struct {
+	*vdFaultKV
+	fmu    sync.Mutex
+	fShelf string
+	fOp    string // read | write
+	fLeft  int
+	fHits  int
+}
+
+var errC14Storage = fmt.Errorf("unable to obtain BBolt lock: %w", context.DeadlineExceeded)
+
+func (k *c14KV) armShelfFault(shelf, op string, n int) {
+	k.fmu.Lock()
+	k.fShelf, k.fOp, k.fLeft, k.fHits = shelf, op, n, 0
+	k.fmu.Unlock()
+}
+
+// disarm ends the fault and tells how often it struck.
+func (k *c14KV) disarm() int {
+	k.fmu.Lock()
+	defer k.fmu.Unlock()
+	k.fLeft = 0
+	return k.fHits
+}
+
+func (k *c14KV) strikes(shelf, op string) bool {
+	k.fmu.Lock()
+	defer k.fmu.Unlock()
+	if k.fLeft > 0 && k.fShelf == shelf && k.fOp == op {
+		k.fLeft--
+		k.fHits++
+		return true
+	}
+	return false
+}
+
+type c14WriteTx struct {
+	stoabs.WriteTx
+	kv *c14KV
+}
+
+func (t c14WriteTx) Store() stoabs.KVStore { return t.kv }
+
+type c14ReadTx struct {
+	stoabs.ReadTx
+	kv *c14KV
+}
+
+func (t c14ReadTx) Store() stoabs.KVStore { return t.kv }
+
+func (k *c14KV) Write(ctx context.Context, fn func(stoabs.WriteTx) error, opts ...stoabs.TxOption) error {
+	return k.vdFaultKV.Write(ctx, func(tx stoabs.WriteTx) error { return fn(c14WriteTx{tx, k}) }, opts...)
+}
+
+func (k *c14KV) Read(ctx context.Context, fn func(stoabs.ReadTx) error) error {
+	return k.vdFaultKV.Read(ctx, func(tx stoabs.ReadTx) error { return fn(c14ReadTx{tx, k}) })
+}
+
+func (k *c14KV) ReadShelf(ctx context.Context, shelf string, fn func(stoabs.Reader) error) error {
+	if k.strikes(shelf, "read") {
+		return errC14Storage
+	}
+	return k.vdFaultKV.ReadShelf(ctx, shelf, fn)
+}
+
+func (k *c14KV) WriteShelf(ctx context.Context, shelf string, fn func(stoabs.Writer) error) error {
+	if k.strikes(shelf, "write") {
+		return errC14Storage
+	}
+	return k.vdFaultKV.WriteShelf(ctx, shelf, fn)
+}
+
+// c14OpenState is vdOpenState with the wrapper between the state and the shared store.
+func c14OpenState(dir string, res *vdKeyResolver) (*state, *c14KV, error) {
+	inner, err := vdOpenKV(dir)
+	if err != nil {
+		return nil, nil, err
+	}
+	kv := &c14KV{vdFaultKV: inner}
+	s, err := NewState(kv, NewPrevTransactionsVerifier(), NewTransactionSignatureVerifier(res))
+	if err != nil {
+		_ = inner.Close(context.Background())
+		return nil, nil, err
+	}
+	st := s.(*state)
+	if err := st.Configure(core.ServerConfig{}); err != nil {
+		_ = inner.Close(context.Background())
+		return nil, nil, err
+	}
+	return st, kv, nil
+}
+
+// ---------------------------------------------------------------------------------------------------------------------
 // world: one execution of the history with one stop
 
 type c14Ev struct {
@@ -327,7 +427,7 @@ type c14Inc struct {
 	n        int
 	dir      string
 	st       *state
-	kv       *vdFaultKV
+	kv       *c14KV
 	nots     []Notifier
 	calls    map[c14Pair]int // calls in this incarnation
 	stopped  bool            // receivers entering now belong to "after the stop": they block, are not logged, and fail
@@ -337,6 +437,8 @@ type c14Inc struct {
 	snapErr  error
 	trig     *c14Trig
 	fired    bool
+	ftrig    *c14Trig // storage fault armed from inside the receiver at this call
+	ftrigOp  string   // read | write
 	closed   bool
 	start    map[int]map[c14Ev]c14Job // job shelves when the incarnation started (persistent subscribers)
 }
@@ -367,6 +469,12 @@ type c14World struct {
 	stackBuf []byte
 	kind     string // stop kind label for signatures
 	t0       time.Time
+
+	// storage fault run: the pair whose notification was hit, and (write faults) the call whose outcome could not be
+	// recorded; faultRetry: the fault struck inside the retry loop, which the notifier then gives up until the next restart
+	faultPair  *c14Pair
+	unmarkedN  int
+	faultRetry bool
 }
 
 var (
@@ -435,6 +543,15 @@ func (w *c14World) receiver(inc *c14Inc, si int) ReceiverFn {
 		if inc.calls[p] > maxRetries+4 || (known && w.c.Subs[si].Slow && n > c14SlowCalls+4) {
 			w.runaway = true
 		}
+		if inc.ftrig != nil && inc.ftrig.pair == p && inc.ftrig.call == n {
+			// from here on the notifier's next read / write of this shelf fails once: for a write that is the recording
+			// of this very call's outcome, for a read the job read of the next attempt
+			inc.kv.armShelfFault(inc.nots[si].(*notifier).shelfName(), inc.ftrigOp, 1)
+			if inc.ftrigOp == "write" {
+				w.unmarkedN = n
+			}
+			inc.ftrig = nil
+		}
 		fire := inc.trig != nil && !inc.fired && inc.trig.pair == p && inc.trig.call == n
 		if fire {
 			inc.fired = true
@@ -465,7 +582,7 @@ func (w *c14World) filter(si int) NotificationFilter {
 
 // open creates an incarnation on dir (dag.db inside) and registers the subscribers; Run is not yet called.
 func (w *c14World) open(dir string) *c14Inc {
-	st, kv, err := vdOpenState(dir, w.res)
+	st, kv, err := c14OpenState(dir, w.res)
 	w.x.NoErr(err, "open state")
 	inc := &c14Inc{n: len(w.incs) + 1, dir: dir, st: st, kv: kv, calls: map[c14Pair]int{}, snapDone: make(chan struct{})}
 	w.incs = append(w.incs, inc)
@@ -497,7 +614,7 @@ func (w *c14World) shelves(inc *c14Inc) map[int]map[c14Ev]c14Job {
 			continue
 		}
 		m := map[c14Ev]c14Job{}
-		err := inc.kv.ReadShelf(w.ctx, inc.nots[si].(*notifier).shelfName(), func(r stoabs.Reader) error {
+		err := inc.kv.vdFaultKV.ReadShelf(w.ctx, inc.nots[si].(*notifier).shelfName(), func(r stoabs.Reader) error {
 			return r.Iterate(func(k stoabs.Key, v []byte) error {
 				var j struct {
 					Type    string          `json:"type"`
@@ -646,7 +763,7 @@ func (w *c14World) shut(inc *c14Inc, fatal bool) {
 			w.x.Fatalf("notifier goroutines of a stopped incarnation did not end")
 		}
 	}
-	vdCloseState(inc.st, inc.kv)
+	vdCloseState(inc.st, inc.kv.vdFaultKV)
 }
 
 func (w *c14World) cleanup() {
@@ -794,6 +911,7 @@ type c14StopPlan struct {
 	Pos      int    // index into Ops of an admitting op
 	Trig     *c14Trig
 	Resubmit bool
+	Fault    string // kind "fault": read-first | write-first | read-retry | write-retry (Trig names the pair and the call)
 }
 
 func (w *c14World) viol(sig, format string, args ...any) {
@@ -828,6 +946,46 @@ func (w *c14World) execute(p c14StopPlan) {
 	case "async":
 		w.admit(inc1, op, false)
 		w.stopNow(inc1)
+	case "fault":
+		// no stop: a transient failure of the notifier's own storage call, armed at the fixed point so that it hits this
+		// pair and nothing else; afterwards storage works again. "Notify the receiver, if an error occurs it'll be retried
+		// later": a failure at the first notification must not need a restart to be made up for.
+		w.waitQuiet("before storage fault", nil)
+		pair := p.Trig.pair
+		shelf := inc1.nots[pair.Sub].(*notifier).shelfName()
+		w.mu.Lock()
+		w.faultPair = &pair
+		switch p.Fault {
+		case "read-first":
+			inc1.kv.armShelfFault(shelf, "read", 1)
+		case "write-first":
+			inc1.kv.armShelfFault(shelf, "write", 1)
+			w.unmarkedN = 1
+		case "read-retry":
+			inc1.ftrig, inc1.ftrigOp, w.faultRetry = p.Trig, "read", true
+		case "write-retry":
+			inc1.ftrig, inc1.ftrigOp, w.faultRetry = p.Trig, "write", true
+		}
+		w.mu.Unlock()
+		w.admit(inc1, op, false)
+		w.waitQuiet("after storage fault", nil)
+		w.mu.Lock()
+		inc1.ftrig = nil
+		if inc1.kv.disarm() == 0 {
+			// nothing was hit (the loop ended before): a plain run up to the fixed point
+			w.faultPair, w.unmarkedN, w.faultRetry = nil, 0, false
+			w.kind = "quiet"
+			x.Class("fault:unconsumed")
+		} else {
+			w.kind = "fault-" + p.Fault
+			x.Class("fault:" + p.Fault)
+		}
+		w.mu.Unlock()
+		w.checkFixedPoint(inc1)
+		if len(x.Violations()) > 0 {
+			return
+		}
+		w.stopNow(inc1) // followed by a clean restart
 	case "receiver":
 		w.mu.Lock()
 		inc1.trig = p.Trig
@@ -998,6 +1156,18 @@ func (w *c14World) checkFixedPoint(inc *c14Inc) {
 		if len(calls) > 0 {
 			last = &calls[len(calls)-1]
 		}
+		// the pair hit by an injected storage fault, while the incarnation that suffered it is still the current one
+		hit := w.faultPair != nil && *w.faultPair == p && inc.n == 1
+		if hit && pending && last != nil && ((w.unmarkedN > 0 && last.N == w.unmarkedN) || w.faultRetry) {
+			// the outcome of the last call could not be recorded, or the fault struck inside the retry loop: the notifier
+			// gives the loop up on its own storage error (deliberately, retry.Unrecoverable). Nothing is promised about
+			// further retries then; the job is still there and must be replayed by the next incarnation (checkLedger).
+			return
+		}
+		budget := maxRetries
+		if hit {
+			budget-- // one attempt went by without its retry count being recorded / without reaching the receiver
+		}
 		switch {
 		case len(calls) == 0 && a.Inc == inc.n:
 			// (an event admitted by an earlier incarnation: lost at the stop -> checkStop, pending but not replayed -> checkLedger)
@@ -1010,7 +1180,7 @@ func (w *c14World) checkFixedPoint(inc *c14Inc) {
 		case pending && okSeen && last.Resp == "ok" && last.Inc == inc.n:
 			w.viol("completed-still-pending", "incarnation %d: subscriber %d reported completion of %s event of transaction %d but the job is still in the shelf (retries %d)",
 				inc.n, p.Sub, p.Type, p.Tx, job.Retries)
-		case pending && job.Retries < maxRetries:
+		case pending && job.Retries < budget:
 			w.viol("retry-stopped-early:"+last.Resp, "incarnation %d: nothing runs any more but the job of subscriber %d for %s event of transaction %d has %d retries (< budget %d), last response %s (%d calls)",
 				inc.n, p.Sub, p.Type, p.Tx, job.Retries, maxRetries, last.Resp, len(calls))
 		case pending && last.Inc == inc.n && last.Resp != "ok":
@@ -1064,11 +1234,14 @@ func (w *c14World) checkLedger() {
 		k := key{p, c.Inc}
 		count[k]++
 		pc, hasPrev := prev[k]
+		// the previous call's outcome could not be recorded (injected storage fault): whatever it answered, the job is
+		// unchanged and the next call is owed
+		afterUnmarked := hasPrev && w.faultPair != nil && *w.faultPair == p && pc.Inc == 1 && w.unmarkedN > 0 && pc.N == w.unmarkedN
 		// "retried with growing delay" / WithRetryDelay: "Between each execution the delay is doubled." From the third call
 		// of a loop on (the first retry follows at once), the call carrying retry count r must come at least
 		// delay*2^(r-2) after the previous one: half of what the schedule delay, 2*delay, 4*delay ... gives. A timer never
 		// fires early, so load can only lengthen the gap.
-		if s.Persistent && hasPrev && count[k] >= 3 && c.Retries >= 2 && c.Retries < maxRetries && pc.Resp != "ok" && pc.Resp != "fatal" {
+		if s.Persistent && hasPrev && !afterUnmarked && count[k] >= 3 && c.Retries >= 2 && c.Retries < maxRetries && pc.Resp != "ok" && pc.Resp != "fatal" {
 			lb := w.subDelay(c.Sub) << uint(c.Retries-2)
 			if gap := c.At - pc.At; gap < lb {
 				speed := "fast"
@@ -1080,6 +1253,10 @@ func (w *c14World) checkLedger() {
 			}
 		}
 		switch {
+		case afterUnmarked:
+			if c.Retries != pc.Retries {
+				w.viol("retry-count-changed-without-record", "subscriber %d, %s event of transaction %d: the outcome of call %d could not be stored, yet the next call carries retry count %d instead of %d", c.Sub, c.Type, c.Tx, pc.N, c.Retries, pc.Retries)
+			}
 		case hasPrev && pc.Resp == "ok":
 			w.viol("called-after-completion:"+phase(c.Inc), "incarnation %d: subscriber %d called again (call %d) for the %s event of transaction %d after it reported completion", c.Inc, c.Sub, c.N, c.Type, c.Tx)
 		case hasPrev && pc.Resp == "fatal":
@@ -1318,6 +1495,27 @@ func c14Plans(c c14Case, txs []vdTx) []c14StopPlan {
 					}
 					did[n] = true
 					plans = append(plans, c14StopPlan{Kind: "receiver", Pos: a.pos, Trig: &c14Trig{pair: c14Pair{si, e.Tx, e.Type}, call: n}})
+				}
+			}
+		}
+		// transient storage faults of the notifier itself, per selecting persistent subscriber
+		for _, e := range a.evs {
+			for si, sub := range c.Subs {
+				if !sub.Persistent || !sub.selects(e.Type, txs[e.Tx].Tx) {
+					continue
+				}
+				pair := c14Pair{si, e.Tx, e.Type}
+				plans = append(plans,
+					c14StopPlan{Kind: "fault", Pos: a.pos, Fault: "read-first", Trig: &c14Trig{pair: pair, call: 1}},
+					c14StopPlan{Kind: "fault", Pos: a.pos, Fault: "write-first", Trig: &c14Trig{pair: pair, call: 1}})
+				b := sub.beh(e.Tx)
+				if last := min(b.Fail+b.Inc+1, maxRetries); last >= 2 {
+					n := 2 + s.Call%(last-1)
+					mode := "write-retry"
+					if s.Call%2 == 0 {
+						mode = "read-retry"
+					}
+					plans = append(plans, c14StopPlan{Kind: "fault", Pos: a.pos, Fault: mode, Trig: &c14Trig{pair: pair, call: n}})
 				}
 			}
 		}
